@@ -11,7 +11,7 @@ from .. import regexlang as rx
 from ..astutil import call_attr, calls_in, guard_facts, parent_map, unparse, walk_local
 from ..report import Finding, Report
 from ..rx_extract import all_compiles
-from ..srcindex import AnalysisError, FuncInfo, Index, dotted
+from ..srcindex import AnalysisError, FuncInfo, Index, dotted, raw_funcs
 
 LEXER = "xdsl/utils/mlir_lexer.py"
 GLEXER = "xdsl/utils/lexer.py"
@@ -93,7 +93,7 @@ def check_redos(idx: Index, rep: Report, tier: str) -> None:
 def _enclosing(idx: Index, relpath: str, line: int) -> str:
     mi = idx.module(relpath)
     best = None
-    for f in mi.functions.values():
+    for f in raw_funcs(mi):
         if f.node.lineno <= line <= (f.node.end_lineno or 0):
             if best is None or f.node.lineno > best.node.lineno:
                 best = f
@@ -132,7 +132,7 @@ def check_unicode_predicates(idx: Index, rep: Report) -> None:
     for n in walk_local(idx.module(LEXER).tree):
         pass
     cnt = 0
-    for f in idx.module(LEXER).functions.values():
+    for f in raw_funcs(idx.module(LEXER)):
         for c in calls_in(f.node):
             if call_attr(c) == "isalpha":
                 cnt += 1
@@ -212,7 +212,7 @@ def check_sites(idx: Index, rep: Report) -> None:
                 owner_loads += 1
     for m in PARSER_MODULES:
         mi = idx.module(m)
-        for f in mi.functions.values():
+        for f in raw_funcs(mi):
             pm = None
             for x in walk_local(f.node):
                 kind = _kind_of(x)
@@ -312,7 +312,7 @@ def check_name_hint_guards(idx: Index, rep: Report) -> None:
     n = 0
     for m in PARSER_MODULES:
         mi = idx.module(m)
-        for f in mi.functions.values():
+        for f in raw_funcs(mi):
             for x in walk_local(f.node):
                 if isinstance(x, ast.Assign) and isinstance(x.targets[0], ast.Attribute) and x.targets[0].attr == "name_hint":
                     n += 1
@@ -335,7 +335,7 @@ def check_consume_token(idx: Index, rep: Report) -> None:
     r = rep.rule("C07.R3d", "_consume_token(<kind>) (which asserts the kind) is called only after the current token was checked to be of that kind", floor=12)
     for m in PARSER_MODULES:
         mi = idx.module(m)
-        for f in mi.functions.values():
+        for f in raw_funcs(mi):
             for c in calls_in(f.node):
                 if call_attr(c) == "_consume_token" and c.args:
                     kind = unparse(c.args[0])
@@ -367,7 +367,7 @@ def check_external_raisers(idx: Index, rep: Report) -> None:
     r = rep.rule("C07.R3e", "calls from the parsers into constructors that raise non-diagnostic errors on bad values are fed validated values (sibling agreement)", floor=4)
     ap = idx.module("xdsl/parser/attribute_parser.py")
     # (1) ParametrizedAttribute.new(param_list): ValueError (zip strict) when the parameter count differs
-    for f in ap.functions.values():
+    for f in raw_funcs(ap):
         for c in calls_in(f.node):
             if call_attr(c) == "new" and isinstance(c.func, ast.Attribute) and unparse(c.func.value) == "attr_def":
                 pm = parent_map(f.node)
@@ -395,7 +395,7 @@ def check_external_raisers(idx: Index, rep: Report) -> None:
     # (3) string_contents (UTF-8 decode) is only applied to literals the lexer classified as STRING_LIT
     for m in ("xdsl/parser/attribute_parser.py", "xdsl/parser/core.py", "xdsl/parser/base_parser.py"):
         mi = idx.module(m)
-        for fn in mi.functions.values():
+        for fn in raw_funcs(mi):
             for x in walk_local(fn.node):
                 if isinstance(x, ast.Attribute) and x.attr == "string_contents":
                     recv = unparse(x.value)
@@ -427,7 +427,7 @@ def check_optional_chars(idx: Index, rep: Report) -> None:
     r = rep.rule("C07.R4", "a character looked up past the current position (Input.at / slice: `str | None`) is used as a string only under a bounds / not-None guard", floor=3)
     mi = idx.module(LEXER)
     n = 0
-    for f in mi.functions.values():
+    for f in raw_funcs(mi):
         for c in calls_in(f.node):
             if unparse(c.func) == "self.input.at":
                 n += 1
